@@ -101,7 +101,7 @@ CLAIMED["C03"] = dict(
     ref="DESIGN.md section 2, C03")
 CLAIMED["C18"] = dict(
     tech="Hypothesis-generated histories of real command lines (job lists): every job run alone in a fresh interpreter vs. all jobs run one after the other in one interpreter in the drawn order and a permutation; metamorphic concatenation relation output(A+B) = output(A) ++ output(B) / sum; repetition under different PYTHONHASHSEED values",
-    text="Job lists of 2..6 real `treetools` command lines (conversions with sentence-local transformations and per-job terminal files under different names, grammar extraction in all types and formats, analysis tasks, transition extraction; different source formats and reader options) are executed by a minimal runner that imports nothing but the code under test: once per job in a fresh process, and as a whole history in one process in two orders. Every job's files and stdout must be the same in all runs. For corpora A and B the output for A+B must be the concatenation (conversions, transitions) or the sum (treebank and Markov grammars, lexicons, statistics) of the separate outputs. The same command under PYTHONHASHSEED 0, 1 and 123 must produce the same files (set-like files as line multisets).",
+    text="Job lists of 2..6 real `treetools` command lines (conversions with sentence-local transformations and per-job terminal files under different names, grammar extraction in all types and formats, analysis tasks, transition extraction; different source formats and reader options) are executed by a minimal runner that imports nothing but the code under test: once per job in a fresh process, and as a whole history in one process in two orders. Every job's files and stdout must be the same in all runs. For corpora A and B the output for A+B must be the concatenation (conversions, transitions) or the sum (treebank and Markov grammars, lexicons, statistics) of the separate outputs. The same command under PYTHONHASHSEED 0, 1 and 123 must produce the same files (set-like files as line multisets). In-process units add many cheap cases: two or three reader->transformation->writer/extraction pipelines executed sequentially and interleaved tree by tree along a drawn schedule must give the same per-pipeline outputs, and extraction, Markovized binarization, writers and statistics over A+B must be the sum / concatenation of the parts.",
     note="Trusted: vlib/jobrunner.py (runpy on the unmodified script), decoders for the additive comparisons. Interleavings are sampled (histories of <= 6+2 jobs, one extra permutation), not enumerated; deterministic binarization is excluded from the additivity clause (symbols are numbered).",
     ref="DESIGN.md section 2, C18")
 PENDING_REASON = "check not built yet in this round (planned, see DESIGN.md section 6); not claimed until it is quiet on the unchanged tree"
